@@ -1,5 +1,5 @@
 (* C13: histories on which the model's own trace violates c13_ok, found while proving
-   C13_history.  Part A: classes now rejected by the guard (c13_reasons bits 1, 2, 4, 8); on
+   C13_history.  Part A: classes now rejected by the guard (c13_reasons bits 1, 2, 4); on
    these even the weakened predicate c13w_ok (Proofs/C13Proofs.v) is false.  Part B: histories
    INSIDE the guard on which the two clauses left out of C13_history_partial are false: where the
    upserted _id comes from, and "the new document matches an equality-only filter".  These are
@@ -65,20 +65,22 @@ Example refuted_null_id :
         [(VNull, VDoc [("_id", VNull)])]).
 Proof. vm_compute. split; reflexivity. Qed.
 
-(* A4 (bit 8).  $currentDate on _id with a clock that has sub-millisecond precision: the result
-   (and the store key) carry the microsecond value, the stored document the value truncated to
-   milliseconds: upserted_id is not the _id of the stored document.  Possible defect candidate
-   (the ids handed out differ from the ids stored), only reachable through $currentDate on _id
-   (filter and update values are truncated on the way in). *)
+(* A4 (WAS bit 8, now removed from the guard).  $currentDate on _id with a clock that has
+   sub-millisecond precision: the result (and the store key) used to carry the microsecond
+   value, the stored document the value truncated to milliseconds, so that upserted_id was not
+   the _id of the stored document and even c13w_ok failed.  The library now keys the store
+   by, and returns, the normalised _id: c13w_ok holds and the history is inside the guard.
+   (c13_ok itself is still false on it, for the reason of part B: the _id comes from
+   $currentDate, neither from the filter nor from the update document nor fresh.) *)
 Definition cex_submilli : list op :=
   [OSetClock 1234567;
    OUpdate (VDoc [("a", VInt 1)]) (VDoc [("$currentDate", VDoc [("_id", VBool true)])]) false true].
-Example refuted_submilli :
-  verdict cex_submilli = (false, false, 8) /\
+Example submilli_now_holds_weak :
+  verdict cex_submilli = (false, true, 0) /\
   last_step cex_submilli =
   Some (Ok (VDoc [("matched", VInt 0); ("modified", VInt 0);
-                  ("upserted_id", VDate 1234567 None)]),
-        [(VDate 1234567 None, VDoc [("a", VInt 1); ("_id", VDate 1234000 None)])]).
+                  ("upserted_id", VDate 1234000 None)]),
+        [(VDate 1234000 None, VDoc [("a", VInt 1); ("_id", VDate 1234000 None)])]).
 Proof. vm_compute. split; reflexivity. Qed.
 
 (* ------------------------------------------------------------------ B: the omitted clauses *)
@@ -95,18 +97,22 @@ Example refuted_set_id :
         [(VInt 7, VDoc [("_id", VInt 7)])]).
 Proof. vm_compute. split; reflexivity. Qed.
 
-(* B2.  replace_one({_id: 0}, {}, upsert=True): the empty replacement keeps the filter's _id only
-   when it is truthy, so for a falsy _id (0, False, "", 0.0) a document with a FRESH ObjectId is
-   inserted; the filter still matches nothing afterwards and a second identical call inserts
-   again.  Genuine defect candidate. *)
+(* B2 (WAS a counterexample, now handled correctly).  replace_one({_id: 0}, {}, upsert=True):
+   the empty replacement used to keep the filter's _id only when it was truthy, so for a falsy
+   _id (0, False, "", 0.0) a document with a FRESH ObjectId was inserted, the filter still
+   matched nothing afterwards and a second identical call inserted again.  The library now
+   keeps the _id unless it is None: the first call inserts {_id: 0}, the second one matches
+   it; c13_ok holds. *)
 Definition cex_falsy_id : list op :=
   [OReplace (VDoc [("_id", VInt 0)]) (VDoc []) true;
    OReplace (VDoc [("_id", VInt 0)]) (VDoc []) true].
-Example refuted_falsy_id :
-  verdict cex_falsy_id = (false, true, 0) /\
-  last_step cex_falsy_id =
-  Some (Ok (VDoc [("matched", VInt 0); ("modified", VInt 0); ("upserted_id", VOid 1001)]),
-        [(VOid 1000, VDoc [("_id", VOid 1000)]); (VOid 1001, VDoc [("_id", VOid 1001)])]).
+Example falsy_id_now_holds :
+  verdict cex_falsy_id = (true, true, 0) /\
+  map (fun ob : obs => (fst (fst ob), snd (fst ob))) (model_obs false empty_coll cex_falsy_id) =
+  [ (Ok (VDoc [("matched", VInt 0); ("modified", VInt 0); ("upserted_id", VInt 0)]),
+     [(VInt 0, VDoc [("_id", VInt 0)])]);
+    (Ok (VDoc [("matched", VInt 1); ("modified", VInt 0); ("upserted_id", VNull)]),
+     [(VInt 0, VDoc [("_id", VInt 0)])]) ].
 Proof. vm_compute. split; reflexivity. Qed.
 
 (* B3.  An _id sub-document whose only content is a nested operator: _discard_operators drops
